@@ -298,6 +298,71 @@ func C20(tier string) int {
 			res.Outcome(fmt.Sprintf("handler-%d", wantStatus))
 		}
 	}
+	// handler: bto/bcc removed (and nothing else), through every 'object' nesting shape
+	stripHidden := func(v interface{}) interface{} { return nil }
+	var strip func(v interface{}) interface{}
+	strip = func(v interface{}) interface{} {
+		switch x := v.(type) {
+		case map[string]interface{}:
+			o := map[string]interface{}{}
+			for k, e := range x {
+				if k == "bto" || k == "bcc" {
+					continue
+				}
+				if k == "object" {
+					o[k] = strip(e)
+				} else {
+					o[k] = e
+				}
+			}
+			return o
+		case []interface{}:
+			var l []interface{}
+			for _, e := range x {
+				l = append(l, strip(e))
+			}
+			return l
+		}
+		return v
+	}
+	_ = stripHidden
+	hiddenNote := func(id string) M {
+		return M{"type": "Note", "id": id, "content": "c", "bto": "https://r2.example/u/erin", "bcc": L{"https://r2.example/u/dave", "https://r1.example/u/carol"}}
+	}
+	for _, tk := range o.TypeKeys() {
+		if !o.HasProp(tk, "ActivityStreams/object") || !o.HasProp(tk, "ActivityStreams/bto") {
+			continue
+		}
+		shapes := map[string]interface{}{
+			"embedded":          hiddenNote("https://l.example/n/e1"),
+			"iri-then-embedded": L{RNote, hiddenNote("https://l.example/n/e1")},
+			"embedded-then-iri": L{hiddenNote("https://l.example/n/e1"), RNote},
+			"nested":            M{"type": "Create", "id": "https://l.example/n/c1", "bcc": Erin, "object": L{RNote, hiddenNote("https://l.example/n/e2")}},
+		}
+		for sn, sv := range shapes {
+			id := "https://l.example/v/hidden"
+			doc := M{"@context": AS, "type": o.Types[tk].Name, "id": id, "bto": Erin, "to": Carol, "object": sv}
+			if o.Types[tk].Vocab != "ActivityStreams" {
+				doc["@context"] = L{AS, o.VocabOf(o.Types[tk].Vocab).URI}
+			}
+			sc := &Scenario{Name: "handler-hidden/" + tk + "/" + sn, Kind: ap.Both, Entry: "Handler", URL: id, Tweak: func(a *ap.App) { a.PutDoc(doc) }}
+			out := sc.Exec(mc.NewExec(nil), false)
+			res.Case("handler-hidden|" + tk + "|" + sn)
+			if out.Panic != nil || out.Err != nil {
+				continue
+			}
+			var got, stored map[string]interface{}
+			json.Unmarshal(out.W.Body(), &got)
+			json.Unmarshal(ap.MustJSON(doc), &stored)
+			exp := strip(stored).(map[string]interface{})
+			if !jsonEqualModCtx(exp, got) {
+				res.Violate("handler-body-not-stored-minus-hidden|"+sn, fmt.Sprintf("%s: served %s, expected %s", sc.Name, shortJSON(got), shortJSON(exp)), M{"check": "C20", "stored": doc})
+			}
+			if msg := headersOK(out.W, out.App.Now); msg != "" {
+				res.Violate("header|"+strings.SplitN(msg, " ", 2)[0]+"|Handler", sc.Name+": "+msg, M{"check": "C20", "stored": doc})
+			}
+		}
+	}
 	// missing value / Get error / Lock error
 	for _, variant := range []string{"missing-nil", "get-error"} {
 		variant := variant
